@@ -674,6 +674,15 @@ def crc_items(tier):
         add('tt1-pn532', i)
     for i in range(0, 20, 2 if tier == 'thorough' else 5):
         add('tt1-pn533', i)
+    # every SEL_RES value through sense_tta + exchange (CRC check routing)
+    sels = range(256) if tier == 'thorough' else (
+        [v for v in range(256) if v & 0x60 == 0][::2] + [0x20, 0x24, 0x40, 0x60])
+    sels = list(sels)
+    for which in ('tt1-pn532', 'tt1-pn533'):
+        for code in (0x02, 0x54, 0x1B):
+            items.append(('crc', 'tx', which, code))
+    for k in range(0, len(sels), 8):
+        items.append(('crc', 'route', tuple(sels[k:k + 8])))
     return items
 
 
@@ -694,7 +703,42 @@ def long_frame(i):
 def crc_fail(run, what, data, observed, expected, key, exc=None):
     sig = 'crc|%s|%s' % (what, sig_exc(exc) if exc is not None else 'mismatch')
     run.fail(sig, dict(part='crc', what=what, data=bytes(data),
-                       observed=observed, expected=expected), key=key)
+                       observed=observed, expected=expected,
+                       item=_jsonable(_CUR_ITEM)), key=key)
+
+
+_CUR_ITEM = None
+
+
+def _jsonable(x):
+    if isinstance(x, (tuple, list)):
+        return [_jsonable(y) for y in x]
+    if isinstance(x, (bytes, bytearray)):
+        return {'hex': bytes(x).hex()}
+    return x
+
+
+def _unjson(x):
+    if isinstance(x, list):
+        return tuple(_unjson(y) for y in x)
+    if isinstance(x, dict) and 'hex' in x:
+        return bytes.fromhex(x['hex'])
+    return x
+
+
+def crc_dispatch(run, item):
+    global _CUR_ITEM
+    _CUR_ITEM = item
+    if item[1] == 'short':
+        work_crc_short(run, item[2], item[3])
+    elif item[1] == 'trailers':
+        work_crc_trailers(run, item[2], item[3])
+    elif item[1] == 'tx':
+        work_crc_tx(run, item[2], item[3])
+    elif item[1] == 'route':
+        work_crc_route(run, item[2])
+    else:
+        work_crc_flips(run, *item[2:])
 
 
 def work_crc_short(run, maxlen, first):
@@ -803,6 +847,112 @@ def crc_device(which):
     return d
 
 
+def work_crc_route(run, sel_values):
+    """Type A targets of every SEL_RES value through the complete exchange
+    path (sense_tta -> clf.exchange): for targets whose SEL_RES makes the
+    driver switch the chip's CRC check off, the driver itself has to verify
+    CRC_A; nobody may return a frame with a wrong CRC as data."""
+    import nfc.clf
+    from sim import chipsets
+    msg = bytes(range(0x10, 0x20))
+    good = refcrc.append_a(msg)
+    for drv in ('pn533', 'pn532', 'rcs380'):
+        for v in sel_values:
+            if v & 0x04:
+                continue        # cascade bit: not a final SEL_RES
+            tag = chipsets.Tag('T2')
+            tag.sel_res = bytearray([v])
+            tag.with_crc = True
+            sim = chipsets.Sim(drv, tag=tag)
+            clf = sim.clf()
+            t = clf.sense(chipsets.sense_target('T2'))
+            if t is None or t.sel_res != bytearray([v]):
+                raise RuntimeError('crc-route: target not found %r' % t)
+            for what, frame in (('valid', good),
+                                ('crc-bit', flip(good, (8 * 16 + 3,))),
+                                ('data-bit', flip(good, (5,))),
+                                ('crc-swapped', good[:-2] + good[:-3:-1])):
+                tag.response = frame
+                key = ('route', drv, v, what)
+                try:
+                    res = ('data', bytes(clf.exchange(b'\x30\x04', 0.1)))
+                except nfc.clf.CommunicationError as e:
+                    res = ('error', type(e).__name__)
+                except Exception as e:
+                    crc_fail(run, 'route-%s(%s)' % (drv, what), frame,
+                             repr(e), 'CommunicationError or data', key, e)
+                    continue
+                run.outcome(('route', drv, v & 0x60, what, res[0]))
+                if what == 'valid':
+                    if res[0] != 'data' or msg not in res[1]:
+                        crc_fail(run, 'route-%s(valid frame rejected|sel_res&60=%02x)'
+                                 % (drv, v & 0x60), frame, res, msg, key)
+                    else:
+                        run.ok(key=key)
+                elif res[0] == 'data':
+                    crc_fail(run, 'route-%s(wrong CRC_A accepted|sel_res&60=%02x,'
+                             'sel_res%s00)' % (drv, v & 0x60,
+                                               '==' if v == 0 else '!='),
+                             frame, res[1], 'rejected', key)
+                else:
+                    run.ok(key=key)
+            run.count('crc_route_targets')
+
+
+def work_crc_tx(run, which, code):
+    """The CRC the drivers append on transmission (CRC_B for the Type 1 Tag
+    commands programmed through the CIU): every frame on the air for message
+    M is M || CRC_B(M), in every short history of transmissions of one and
+    the same message object (the tag layer hands the same bytearray down
+    again when it retries), whatever the tag answered before."""
+    import nfc.clf
+    import nfc.clf.device as device
+    sim, tag = crc_device(which)
+    dev = sim.device
+    uid = b'\xB2\x56\x54\x00'
+    for blk in (0, 1, 8, 15):
+        for fill in (0x00, 0xA5, 0xFF):
+            m0 = bytes([code, blk]) + bytes([fill]) * 8 + uid
+            rsp = bytes([blk]) + bytes(range(8))
+            # answers per transmission: a=answer  s=silent  c=corrupted
+            for hist in itertools.product('asc', repeat=3):
+                obj = bytearray(m0)
+                del tag.air_log[:]
+                for k, h in enumerate(hist):
+                    good = refcrc.append_b(rsp)
+                    tag.response = {'a': good, 's': None,
+                                    'c': flip(good, (9,))}[h]
+                    try:
+                        res = ('data', bytes(dev._tt1_send_cmd_recv_rsp(
+                            obj, 0.1)))
+                    except nfc.clf.CommunicationError as e:
+                        res = ('error', type(e).__name__)
+                    except Exception as e:
+                        crc_fail(run, 'tx-%s' % which, m0, repr(e),
+                                 'data or CommunicationError',
+                                 ('tx', which, m0, hist, k), e)
+                        break
+                    sent = tag.air_log[-1] if len(tag.air_log) == k + 1 \
+                        else None
+                    if sent != refcrc.append_b(m0):
+                        crc_fail(run, 'tx-%s(%s frame on the air is not '
+                                 'M||CRC_B(M))' % (which, 'first' if k == 0
+                                                   else 'repeated'),
+                                 m0, sent, refcrc.append_b(m0),
+                                 ('tx', which, m0, hist, k))
+                        break
+                    want = ('data', rsp) if h == 'a' else ('error',)
+                    if res[:len(want)] != want:
+                        crc_fail(run, 'tx-%s(answer %s at transmission %d)'
+                                 % (which, h, min(k, 1)), m0, res, want,
+                                 ('tx', which, m0, hist, k))
+                        break
+                else:
+                    run.ok(key=('tx', which, m0, hist))
+                run.outcome(('tx', which, code, hist))
+    run.count('crc_tx_histories')
+
+
 def work_crc_flips(run, which, i, sl, S, tier='thorough'):
     import nfc.clf
     import nfc.clf.device as device
@@ -895,12 +1045,7 @@ def work(args):
         elif part in ('rsp', 'tty'):
             work_rsp(run, item, tier)
         elif part == 'crc':
-            if item[1] == 'short':
-                work_crc_short(run, item[2], item[3])
-            elif item[1] == 'trailers':
-                work_crc_trailers(run, item[2], item[3])
-            else:
-                work_crc_flips(run, *item[2:])
+            crc_dispatch(run, item)
     return run.export()
 
 
@@ -1032,5 +1177,11 @@ def replay(doc):
             data) >= 2 else None, 'ref', refcrc.valid_b(data))
         print('recorded:', d['what'], 'observed', d['observed'], 'expected',
               d['expected'])
+        if d.get('item'):
+            crc_dispatch(run, _unjson(d['item']))
+            again = doc['signature'] in run.failures
+            print('work item %r: %s' % (d['item'][:3], 'VIOLATION again' if
+                                        again else 'no violation'))
+            return 1 if again else 0
         return 1
     return 2
